@@ -5,13 +5,15 @@ import os
 VERIF = os.path.dirname(os.path.dirname(os.path.abspath(__file__)))
 
 COMMON = ["-std=c++17", "-Wall", "-Wno-unused-function", "-Wno-sign-compare", "-Wno-unused-variable"]
+# AddressSanitizer builds also annotate std::vector storage, so that a read between size() and capacity()
+# (e.g. transitions_[timecnt]) is reported instead of silently returning stale bytes
+ASAN = ["-fsanitize=address,undefined", "-D_GLIBCXX_SANITIZE_VECTOR"]
 VARIANTS = {
     # sanitizer build: the sanitizer is part of the oracle (abort on first report)
-    "asan": {"cxx": "g++", "flags": COMMON + ["-O1", "-g", "-fno-omit-frame-pointer",
-                                              "-fsanitize=address,undefined", "-fno-sanitize-recover=all"]},
+    "asan": {"cxx": "g++", "flags": COMMON + ["-O1", "-g", "-fno-omit-frame-pointer"] + ASAN + ["-fno-sanitize-recover=all"]},
     "plain": {"cxx": "g++", "flags": COMMON + ["-O2"]},
     # hooked build for the schedule explorer: std::mutex / std::atomic in cctz TUs announce themselves to the scheduler
-    "sched": {"cxx": "g++", "flags": COMMON + ["-O1", "-g", "-fno-omit-frame-pointer", "-fsanitize=address,undefined", "-fno-sanitize-recover=all",
+    "sched": {"cxx": "g++", "flags": COMMON + ["-O1", "-g", "-fno-omit-frame-pointer"] + ASAN + ["-fno-sanitize-recover=all",
                                                "-DCCTZ_VERIF_SCHED", "-I" + os.path.join(VERIF, "src", "sched"), "-include", os.path.join(VERIF, "src", "sched", "hook.h")],
               "deps": [os.path.join(VERIF, "src", "sched", "hook.h"), os.path.join(VERIF, "src", "sched", "vp.h")]},
     "tsan": {"cxx": "g++", "flags": COMMON + ["-O1", "-g", "-fsanitize=thread"]},
@@ -20,7 +22,7 @@ VARIANTS = {
                                                     "-DCCTZ_VERIF_SCHED", "-I" + os.path.join(VERIF, "src", "sched"), "-include", os.path.join(VERIF, "src", "sched", "hook.h")],
                    "deps": [os.path.join(VERIF, "src", "sched", "hook.h"), os.path.join(VERIF, "src", "sched", "vp.h")]},
     # C12: UBSan in recover mode (reports are captured per input by a hook), ASan fatal
-    "asan_rec": {"cxx": "g++", "flags": COMMON + ["-O1", "-g", "-fno-omit-frame-pointer", "-fsanitize=address,undefined", "-fsanitize-recover=undefined"]},
+    "asan_rec": {"cxx": "g++", "flags": COMMON + ["-O1", "-g", "-fno-omit-frame-pointer"] + ASAN + ["-fsanitize-recover=undefined"]},
     # C12 determinism: two uninstrumented clang builds that differ only in how automatic variables are pre-filled
     "cl_pattern": {"cxx": "clang++", "flags": COMMON + ["-O1", "-DNDEBUG", "-ftrivial-auto-var-init=pattern", "-Wno-unknown-warning-option"]},
     "cl_zero": {"cxx": "clang++", "flags": COMMON + ["-O1", "-DNDEBUG", "-ftrivial-auto-var-init=zero", "-enable-trivial-auto-var-init-zero-knowing-it-will-be-removed-from-clang", "-Wno-unknown-warning-option"]},
